@@ -1440,14 +1440,8 @@ where
     T: Node + Clone,
 {
     fn set_named_item(&self, arg: T) -> error::Result<Option<T>> {
-        let name = arg.node_name();
-        if let Ok(v) = self.remove_named_item(name.as_str()) {
-            (self.add)(&self.node, arg)?; // FIXME: revert on failed.
-            Ok(Some(v))
-        } else {
-            (self.add)(&self.node, arg)?;
-            Ok(None)
-        }
+        // `add` replaces and returns the item of the same name after its own checks.
+        (self.add)(&self.node, arg)
     }
 
     fn remove_named_item(&self, name: &str) -> error::Result<T> {
@@ -1774,7 +1768,7 @@ impl ElementMut for XmlElement {
             return Err(error::DomException::WrongDocumentErr)?;
         }
 
-        if new_attr.attribute.borrow().order() != 0 {
+        if new_attr.attribute.borrow().owner_element().is_ok() {
             return Err(error::DomException::InuseAttributeErr)?;
         }
 
